@@ -296,7 +296,19 @@ impl LuaTableField {
                             }
                         }
 
-                        return Some(LuaIndexKey::Expr(LuaExpr::cast(node).unwrap()));
+                        if node.kind() == LuaSyntaxKind::Comment.into() {
+                            continue;
+                        }
+
+                        return LuaExpr::cast(node).map(LuaIndexKey::Expr);
+                    }
+                    rowan::NodeOrToken::Token(token)
+                        if matches!(
+                            token.kind().to_token(),
+                            LuaTokenKind::TkWhitespace | LuaTokenKind::TkEndOfLine
+                        ) =>
+                    {
+                        continue;
                     }
                     _ => return None,
                 }
